@@ -14,6 +14,7 @@ import (
 	"sort"
 	"strconv"
 	"strings"
+	"sync"
 
 	"github.com/dave/jennifer/jen"
 
@@ -81,14 +82,15 @@ var aliasPool = []string{"x", "y", "d", "rand", "fmt", "zz", "x1", "x2", "pkg_d"
 var prefixPool = []string{"pkg", "p1", "X", "go", "a_b"}
 var trueNamePool = []string{"x", "d", "real", "pkg_d", "pkg_x", "x1", "rand", "fmt", "y", "zz", "go1", "größe", "naïve", "日本", "x_1", "Rand", "rand1", "p1_rand1"}
 
-var reservedOnce []string
+var (
+	reservedOnce  sync.Once
+	reservedWords []string
+)
 
 // ReservedWords returns keywords + universe identifiers (independent oracle lists).
 func ReservedWords() []string {
-	if reservedOnce == nil {
-		reservedOnce = append(oracle.Keywords(), oracle.UniverseNames()...)
-	}
-	return reservedOnce
+	reservedOnce.Do(func() { reservedWords = append(oracle.Keywords(), oracle.UniverseNames()...) })
+	return reservedWords
 }
 
 const NCtx = 12
